@@ -339,8 +339,8 @@ fn get_string_value(src: &[u8], len: usize, i: usize) -> GetResult<'_> {
 }
 
 fn get_string_array_value(src: &[u8], len: usize, i: usize) -> GetResult<'_> {
-    let value =
-        get_string(src, len, i)?.map(|s| Some(Value::Array(Array::String(Box::new(s)))));
+    let value = get_string(src, len, i)?
+        .map(|s| Some(Value::Array(Array::String(Box::new(RawStrings(s))))));
 
     Some(value)
 }
@@ -359,6 +359,36 @@ fn get_genotype_value<'r>(
         header.file_format(),
         src,
     ))))))
+}
+
+/// A comma-delimited list of raw strings.
+///
+/// Unlike in VCF text, strings in BCF are not percent-encoded.
+struct RawStrings<'a>(&'a str);
+
+impl<'a> vcf::variant::record::samples::series::value::array::Values<'a, Cow<'a, str>>
+    for RawStrings<'a>
+{
+    fn len(&self) -> usize {
+        if self.0.is_empty() {
+            0
+        } else {
+            self.0.split(',').count()
+        }
+    }
+
+    fn iter(&self) -> Box<dyn Iterator<Item = io::Result<Option<Cow<'a, str>>>> + '_> {
+        const MISSING: &str = ".";
+
+        if self.0.is_empty() {
+            Box::new(std::iter::empty())
+        } else {
+            Box::new(self.0.split(',').map(|s| match s {
+                MISSING => Ok(None),
+                _ => Ok(Some(Cow::from(s))),
+            }))
+        }
+    }
 }
 
 #[cfg(test)]
